@@ -51,6 +51,10 @@ pub struct Qcow2Dev<T> {
 
     // set in case that any dirty meta is made
     need_flush: AtomicBool,
+
+    // a header write failed: whether it reached the disk isn't known, the
+    // in-ram header has to be written again before anything relies on it
+    header_unsure: AtomicBool,
     flush_lock: AsyncMutex<()>,
     // discard() runs alone: it releases host clusters, which must not have
     // guest reads or writes in flight (held for read by read_at / write_at)
@@ -118,6 +122,7 @@ impl<T: Qcow2IoOps> Qcow2Dev<T> {
             refblock_cache: AsyncLruCache::new(rb_cache_cnt),
             new_cluster: AsyncRwLock::new(Default::default()),
             need_flush: AtomicBool::new(false),
+            header_unsure: AtomicBool::new(false),
             flush_lock: AsyncMutex::new(()),
             io_lock: AsyncRwLock::new(()),
             refcount_flush_lock: AsyncMutex::new(()),
